@@ -66,7 +66,7 @@ def dm_pass(ctx, src, items, worker, env=None):
         nobs += len(rec["routes"])
     ctx.evaluations += nobs
     ctx.log("Act T: TLC judges %d records (%d observations)" % (len(records), nobs))
-    res = tlc.validate_traces("DMTrace", "DMTrace.cfg", records, chunk=200)
+    res = tlc.validate_traces("DMTrace", "DMTrace.cfg", records, chunk=200, canary_fields=["compact"])
     ctx.add_tv(res)
     classify(ctx, by_id, res["fails"])
     if not isinstance(ctx.nontrivial, set):
